@@ -1,16 +1,16 @@
 """C08 - a frame's channel descriptors match the layout of its data records.  (structural clauses)
 
 R08.1 = C03 R03.3 (dtype <-> representation code <-> size table agrees with RP66).
-R08.2 (effects + reaching definitions) single source of truth: the CHANNEL's REPRESENTATION-CODE is written only by
+R08.2 (effects + value-flow normal form) single source of truth: the CHANNEL's REPRESENTATION-CODE is written only by
       set_from_dtype, called only from the function that also stores the cast dtype; the chunk dtype takes, for every
       field, `known_dtypes.get(<that field's name>, <source dtype>)` decided in the same loop iteration (no value carried
       over from another field / data set); both wrapper construction branches pass the frame's known-dtypes mapping, which
       is recomputed from the channels on every use.
-R08.3 (CFG) setup_from_data (dimension + code from the data, for every channel of the frame) lies on every path between
+R08.3 (value-flow summaries) setup_from_data (dimension + code from the data, for every channel of the frame) lies on every path between
       wrapper construction and the creation of the frame's record generator.
-R08.4 (AST) dimension rule: [1] for 1-D data, shape[1:] otherwise; the row layout uses shape[-1] for 2-D and rejects > 2-D;
+R08.4 (value-flow normal form, inlined) dimension rule: [1] for 1-D data, shape[1:] otherwise; the row layout uses shape[-1] for 2-D and rejects > 2-D;
       a pre-set DIMENSION that differs raises; a pre-set ELEMENT-LIMIT survives only if it bounds the dimension.
-R08.5 (AST) record length: FDATA body = OBNAME + UVARI + one piece per slot (field-wise, so no padding bytes of the
+R08.5 (value-flow normal form) record length: FDATA body = OBNAME + UVARI + one piece per slot (field-wise, so no padding bytes of the
       source layout are written); the zero-copy fast path is taken only under exact dtype equality.
 """
 
